@@ -51,7 +51,7 @@ def main():
         env = dict(os.environ, VERIF_REPO=wt)
         for p in [pid] + others:
             t0 = time.time()
-            rc, o = sh(f'./check {p} --tier {tier} --no-evidence', cwd=V, env=env, timeout=3000)
+            rc, o = sh(f'./check {p} --tier {tier} --no-evidence', cwd=V, env=env, timeout=int(os.environ.get('EVAL_TIMEOUT', '3000')))
             lines = [l for l in o.splitlines() if l.startswith('VIOLATION')]
             out[f'check_{p}'] = {'exit': rc, 'violation_lines': len(lines), 'wall_s': round(time.time() - t0, 1),
                                  'first': next((l for l in o.splitlines() if l.strip().startswith('harness=')), '')[:300],
